@@ -70,3 +70,17 @@ Theorem C05_same_live_templates_print_identical_trees :
     /\ erase (r_root (run b1 ops1)) = erase (r_root (run b2 ops2)).
 Proof. exact reach_same_live_display. Qed.
 Print Assumptions C05_same_live_templates_print_identical_trees.
+
+(* ---- Node::optimize, REGENERATED from src/node/optimize.rs on this run (Gen/Shapes.v): early return exactly on a clean
+        node, recursion into all seven child lists, all seven sorted, both shortcut flags refreshed, dirty mark cleared ---- *)
+From Coq Require Import String.
+From WF Require Import Gen.Shapes Proofs.ShapesP.
+Theorem C05_optimize_covers_every_list :
+  bl_eqb gen_optimize_recursion seven_lists = true
+  /\ bl_eqb gen_optimize_sorts seven_lists = true
+  /\ gen_optimize_for_count = 7
+  /\ bl_eqb gen_optimize_statements
+       ["if !self.needs_optimization {"; "return"; "self.update_dynamic_children_shortcut()";
+        "self.update_wildcard_children_shortcut()"; "self.needs_optimization = false"]%string = true.
+Proof. exact optimize_shape. Qed.
+Print Assumptions C05_optimize_covers_every_list.
